@@ -48,6 +48,7 @@ try:
     import numpy as _np
 except Exception:  # pragma: no cover
     _np = None
+import array as _array
 
 
 # ------------------------------------------------------------------------------------------------ adapter record
@@ -185,6 +186,8 @@ def canon(x, _path=(), _depth=0):
         return "x:" + bytes(x).hex()
     if isinstance(x, memoryview):
         return "x:" + x.tobytes().hex()
+    if isinstance(x, _array.array):
+        return {"array": x.tolist(), "typecode": x.typecode}
     if _np is not None and isinstance(x, _np.ndarray):
         return {"np": x.tolist(), "shape": list(x.shape)}
     if _np is not None and isinstance(x, _np.generic):
@@ -269,7 +272,7 @@ def short(c, n=160):
 def _mutable_leaf(x):
     if bitarray is not None and isinstance(x, bitarray):
         return not (frozenbitarray is not None and isinstance(x, frozenbitarray))
-    if isinstance(x, (bytearray, list, dict, set)):
+    if isinstance(x, (bytearray, list, dict, set, _array.array)):
         return True
     if _np is not None and isinstance(x, _np.ndarray):
         return True
@@ -362,14 +365,14 @@ def node_mutators(x, ep=None, all_of_them=False):
             ms.append(("clear", mk(lambda: x.clear())))
             ms.append(("setall-complement", mk(lambda: x.invert())))
         ms.append(("extend", mk(lambda: x.extend([1, 0, 1]))))
-    elif isinstance(x, (bytearray, list)):
+    elif isinstance(x, (bytearray, list, _array.array)):
         def mk(fn):
             def apply():
                 saved = list(x)
                 fn()
 
                 def undo():
-                    x[:] = type(x)(saved)
+                    x[:] = _array.array(x.typecode, saved) if isinstance(x, _array.array) else type(x)(saved)
                 return undo
             return apply
 
@@ -381,7 +384,7 @@ def node_mutators(x, ep=None, all_of_them=False):
         if len(x):
             ms.append(("edit-[0]", mk(tweak0)))
             ms.append(("del-first", mk(lambda: x.__delitem__(0))))
-            ms.append(("clear", mk(lambda: x.__delitem__(slice(None)))))
+            ms.append(("clear", mk(lambda: x.__delitem__(slice(None, None)))))
             if len(x) > 1:
                 ms.append(("reverse", mk(lambda: x.reverse())))
         ms.append(("append", mk(lambda: x.append(x[-1] if len(x) else 1))))
@@ -767,6 +770,9 @@ def _copy_into(dst, src):
     if isinstance(dst, bytearray) and isinstance(src, (bytes, bytearray)):
         dst[:] = src
         return True
+    if isinstance(dst, _array.array) and isinstance(src, _array.array) and dst.typecode == src.typecode:
+        dst[:] = src
+        return True
     if isinstance(dst, list) and isinstance(src, (list, tuple)):
         dst[:] = list(src)
         return True
@@ -869,6 +875,13 @@ def probe_argument_kept(eps, p):
     r = ep.run(a)
     after = canon(a)
     if after != before:
+        # reviewed reading (DESIGN 5 C19): a documented in-place repair may change its argument iff it RETURNS that buffer
+        outs = [r] + (list(r) if isinstance(r, (tuple, list)) else [])
+        b4 = before if isinstance(before, list) else [before]
+        af = after if isinstance(after, list) else [after]
+        changed = [x for x, c0, c1 in zip(a, b4, af) if c0 != c1]
+        if changed and all(any(x is y for y in outs) for x in changed):
+            return "in-place-repair-returns-its-buffer"
         return {"what": f"{ep.name}: the caller's arguments are changed by the call",
                 "expected": before, "actual": after, "steps": [f"a = args#{p['draw']}", f"{ep.name}(*a) -> {short(ep.can(r), 60)}", "a compared with its value before the call"]}
     return None
